@@ -492,4 +492,74 @@ example : let dec : Bytes → Bool := fun p => p != List.replicate 10 255
     (stepBase dec s .read).1.stream = flat [[10, 1, 55, 18, 0]] := by
   decide +kernel
 
+/-! ### blocking mode (`read_message_blocking_timeout`, `write_message` on a blocking channel) -/
+
+/-- FIFO refinement with the blocking calls mixed in at any point: for every op
+    sequence over the non-blocking ops, `read_message_blocking_timeout` (reads
+    the socket itself, grows the buffer through the parser's tail, times out on
+    an empty socket) and blocking `write_message` with any accept schedule,
+    the messages returned so far followed by the messages in flight are
+    exactly the messages whose write returned `Ok`, in order; the bytes in
+    flight are exactly their frames. -/
+theorem C11_blocking_fifo_refinement (dec : Bytes → Bool) (bufferSize maxBufferSize : Nat)
+    (ops : List XOp) (hraw : ∀ op ∈ ops, xIsRaw op = false)
+    (hgood : ∀ p, (XOp.base (.write p) ∈ ops ∨ ∃ sc, XOp.bwrite p sc ∈ ops) → Good dec p) :
+    let res := xrun dec (Sys.new bufferSize maxBufferSize) ops
+    ∃ pending, xwritten ops res.2 = delivered res.2 ++ pending ∧
+      res.1.stream = flat pending ∧ delivered res.2 <+: xwritten ops res.2 := by
+  obtain ⟨pend, hf, he⟩ := xrun_fifo dec (Sys.new bufferSize maxBufferSize) ops []
+    (fifo_new dec _ _) hraw hgood
+  simp only [List.nil_append] at he
+  exact ⟨pend, he, hf.stream, ⟨pend, he.symm⟩⟩
+
+-- a 158-byte frame written and read in blocking mode through a 100-byte buffer: the blocking
+-- read grows the buffer through the parser's tail (no `readable()` involved)
+example : (xrun (fun _ => true) (Sys.new 100 200)
+    [.bwrite (List.replicate 150 7) [usizeMax], .base (.deliver 158), .bread, .bread]).2
+    = [.unit, .count 158, .msg (List.replicate 150 7), .err .timeout] := by
+  decide +kernel
+
+/-- memory bound and offsets with the blocking calls mixed in -/
+theorem C11_blocking_capacity_bounded (dec : Bytes → Bool) (bufferSize maxBufferSize : Nat)
+    (ops : List XOp) :
+    let s := (xrun dec (Sys.new bufferSize maxBufferSize) ops).1
+    (s.w.front.cap ≤ max bufferSize maxBufferSize ∧ s.w.back.cap ≤ max bufferSize maxBufferSize ∧
+      s.r.front.cap ≤ max bufferSize maxBufferSize ∧ s.r.back.cap ≤ max bufferSize maxBufferSize) ∧
+    (s.w.front.WF ∧ s.w.back.WF ∧ s.r.front.WF ∧ s.r.back.WF) := by
+  have h := xrun_sysStep dec (Sys.new bufferSize maxBufferSize) ops (sysWF_new _ _)
+  have hw := h.wf (sysWF_new _ _)
+  have e1 : (Sys.new bufferSize maxBufferSize).w.max = max maxBufferSize bufferSize := rfl
+  have e2 : (Sys.new bufferSize maxBufferSize).r.max = max maxBufferSize bufferSize := rfl
+  have c1 : (Sys.new bufferSize maxBufferSize).w.front.cap = bufferSize := rfl
+  have c2 : (Sys.new bufferSize maxBufferSize).w.back.cap = bufferSize := rfl
+  have c3 : (Sys.new bufferSize maxBufferSize).r.front.cap = bufferSize := rfl
+  have c4 : (Sys.new bufferSize maxBufferSize).r.back.cap = bufferSize := rfl
+  have h1 := h.w.frontCap; have h2 := h.w.backCap; have h3 := h.r.frontCap; have h4 := h.r.backCap
+  rw [e1, c1] at h1; rw [e1, c2] at h2; rw [e2, c3] at h3; rw [e2, c4] at h4
+  refine ⟨⟨?_, ?_, ?_, ?_⟩, hw.1.1, hw.1.2, hw.2.1, hw.2.2⟩ <;> omega
+
+example : (xrun (fun _ => true) (Sys.new 100 200)
+    [.bwrite (List.replicate 150 7) [usizeMax], .base (.deliver 158), .bread]).1.r.front.cap = 100 := by
+  decide +kernel
+
+/-- A blocking `write_message` whose flush loop lets the kernel take everything
+    leaves nothing behind (partial statement: the hypothesis on the schedule is
+    what the code does not check, see the counterexample). -/
+theorem C11_blocking_write_flushes_partial (c : Chan) (k : Nat) (h : ChanWF c)
+    (hk : c.back.data.length ≤ k) : (bwriteLoop [k] c []).1.back.data = [] :=
+  bwriteLoop_all c k [] h hk
+
+/-- Genuine defect (confirmed on the real code, class
+    `blocking-write-ok-with-unsent-remainder`): the flush loop of
+    `write_message_blocking` answers *any* `sock.write` error (EINTR, a send
+    timeout) with `Ok(())`. Here the kernel takes 7 of 99 bytes and then refuses:
+    the call returns `Ok`, 92 bytes stay in the back buffer, the WRITABLE
+    interest is not armed, so not even the fair schedule sends them: the
+    message is accepted and never delivered unless another write follows. -/
+theorem C11_blocking_write_counterexample :
+    let res := xrun (fun _ => true) (Sys.new 100 100)
+      [.bwrite (List.replicate 91 120) [7], .base (.drain 20)]
+    res.2 = [.unit, .drained [] .nothingRead] ∧ res.1.w.back.data.length = 92 ∧ res.1.w.inW = false := by
+  decide +kernel
+
 end Sozu.Channel
